@@ -281,3 +281,350 @@ Proof.
     destruct (data_get s (ov_data o)); [reflexivity|discriminate].
   - reflexivity.
 Qed.
+
+(* ---------------------------------------------------------------- profile-level layering *)
+
+Definition olookup {A : Type} (k : key) (m : option (list (key * A))) : option A :=
+  match m with Some x => lookup k x | None => None end.
+
+(* what file f says about key k of profile n *)
+Definition binding (n k : key) (f : file) : option sval := olookup k (layer_settings n f).
+
+Definition slot_step (a b : option sval) : option sval :=
+  match b with Some v => Some (merge_sval a v) | None => a end.
+
+Definition slot_from (a : option sval) (bs : list (option sval)) : option sval :=
+  fold_left slot_step bs a.
+
+Definition slot (bs : list (option sval)) : option sval := slot_from None bs.
+
+(* processing order of the composite builder *)
+Definition layers (builtin repo : file) (tools : list file) : list file :=
+  builtin :: rev tools ++ [repo].
+
+Lemma layers_rev builtin repo tools :
+  rev (layers builtin repo tools) = by_priority repo tools ++ [builtin].
+Proof.
+  unfold layers, by_priority. cbn [rev]. rewrite rev_app_distr, rev_involutive. reflexivity.
+Qed.
+
+Lemma lookup_In {A : Type} k (m : list (key * A)) v : lookup k m = Some v -> In (k, v) m.
+Proof.
+  induction m as [|[k' v'] r IH]; cbn [lookup]; [discriminate|].
+  destruct (str_eqb k k') eqn:E.
+  - apply str_eqb_eq in E. subst k'. intros [= ->]. left; reflexivity.
+  - intros H. right. auto.
+Qed.
+
+Lemma lookup_fold_merge k new : forall old,
+  nodup_keys new = true ->
+  lookup k (fold_left (fun acc kv => upsert (fst kv) (merge_sval (lookup (fst kv) acc) (snd kv)) acc)
+                      new old) =
+  match lookup k new with
+  | Some v => Some (merge_sval (lookup k old) v)
+  | None => lookup k old
+  end.
+Proof.
+  induction new as [|[k' v] r IH]; intros old Hnd; cbn [fold_left lookup fst snd]; [reflexivity|].
+  cbn [nodup_keys] in Hnd. apply andb_true_iff in Hnd as [Hk Hr].
+  rewrite IH by assumption.
+  destruct (str_eqb k k') eqn:E.
+  - apply str_eqb_eq in E. subst k'. destruct (lookup k r); [discriminate|].
+    rewrite lookup_upsert_same. reflexivity.
+  - rewrite lookup_upsert_other by exact E. reflexivity.
+Qed.
+
+Lemma lookup_fold_upsert {A : Type} sk (m : list (key * A)) : forall base,
+  nodup_keys m = true ->
+  lookup sk (fold_left (fun acc kv => upsert (fst kv) (snd kv) acc) m base) =
+  or_else (lookup sk m) (lookup sk base).
+Proof.
+  induction m as [|[k' v] r IH]; intros base Hnd; cbn [fold_left lookup fst snd or_else];
+    [reflexivity|].
+  cbn [nodup_keys] in Hnd. apply andb_true_iff in Hnd as [Hk Hr].
+  rewrite IH by assumption.
+  destruct (str_eqb sk k') eqn:E.
+  - apply str_eqb_eq in E. subst k'. destruct (lookup sk r); [discriminate|].
+    rewrite lookup_upsert_same. reflexivity.
+  - rewrite lookup_upsert_other by exact E. reflexivity.
+Qed.
+
+Lemma wf_pcfg_of f n pc :
+  wf_file f = true -> lookup n (f_profiles f) = Some pc -> wf_pcfg pc = true.
+Proof.
+  intros Hwf Hl. unfold wf_file in Hwf. apply andb_true_iff in Hwf as [_ Hall].
+  rewrite forallb_forall in Hall. apply lookup_In in Hl. exact (Hall _ Hl).
+Qed.
+
+Lemma wf_binding f n k m :
+  wf_file f = true -> binding n k f = Some (VTable m) -> nodup_keys m = true.
+Proof.
+  intros Hwf Hb. unfold binding, layer_settings, olookup in Hb.
+  destruct (lookup n (f_profiles f)) as [pc|] eqn:El; [|discriminate].
+  pose proof (wf_pcfg_of _ _ _ Hwf El) as Hpc. unfold wf_pcfg in Hpc.
+  apply andb_true_iff in Hpc as [_ Hall]. rewrite forallb_forall in Hall.
+  apply lookup_In in Hb. exact (Hall _ Hb).
+Qed.
+
+Lemma olookup_merge_layer n k acc f :
+  wf_file f = true ->
+  olookup k (merge_layer n acc f) = slot_step (olookup k acc) (binding n k f).
+Proof.
+  intros Hwf. unfold merge_layer, binding, layer_settings.
+  destruct (lookup n (f_profiles f)) as [pc|] eqn:El; cbn [olookup slot_step]; [|reflexivity].
+  pose proof (wf_pcfg_of _ _ _ Hwf El) as Hpc. unfold wf_pcfg in Hpc.
+  apply andb_true_iff in Hpc as [Hnd _].
+  unfold merge_settings. rewrite lookup_fold_merge by exact Hnd.
+  destruct (lookup k (pc_settings pc)); destruct acc; reflexivity.
+Qed.
+
+Lemma olookup_fold_layers n k fs : forall acc,
+  (forall f, In f fs -> wf_file f = true) ->
+  olookup k (fold_left (merge_layer n) fs acc) =
+  slot_from (olookup k acc) (map (binding n k) fs).
+Proof.
+  induction fs as [|f r IH]; intros acc Hwf; cbn [fold_left map]; [reflexivity|].
+  rewrite IH by (intros g Hg; apply Hwf; right; exact Hg).
+  rewrite olookup_merge_layer by (apply Hwf; left; reflexivity). reflexivity.
+Qed.
+
+Lemma layers_wf builtin repo tools :
+  wf_file builtin = true -> wf_file repo = true -> forallb wf_file tools = true ->
+  forall f, In f (layers builtin repo tools) -> wf_file f = true.
+Proof.
+  intros Hb Hr Ht f [<-|Hin]; [exact Hb|].
+  apply in_app_or in Hin as [Hin|[<-|[]]]; [|exact Hr].
+  apply in_rev in Hin. rewrite forallb_forall in Ht. exact (Ht _ Hin).
+Qed.
+
+(* each key's slot of the built configuration evolves on its own: it is the fold of the files'
+   bindings of that key, lowest priority first *)
+Theorem merged_key_slot builtin repo tools n k :
+  wf_file builtin = true -> wf_file repo = true -> forallb wf_file tools = true ->
+  olookup k (merged_profile builtin repo tools n) =
+  slot (map (binding n k) (layers builtin repo tools)).
+Proof.
+  intros Hb Hr Ht. unfold merged_profile.
+  change (builtin :: rev tools ++ [repo]) with (layers builtin repo tools).
+  rewrite olookup_fold_layers by (apply layers_wf; assumption). reflexivity.
+Qed.
+
+Lemma slot_from_snoc a bs b : slot_from a (bs ++ [b]) = slot_step (slot_from a bs) b.
+Proof. unfold slot_from. rewrite fold_left_app. reflexivity. Qed.
+
+Lemma first_some_app {A : Type} (l1 l2 : list (option A)) :
+  first_some (l1 ++ l2) = or_else (first_some l1) (first_some l2).
+Proof.
+  induction l1 as [|x r IH]; cbn [app first_some fold_right or_else]; [reflexivity|].
+  fold (first_some (r ++ l2)). fold (first_some r). rewrite IH. destruct x; reflexivity.
+Qed.
+
+Lemma first_some_rev_snoc {A : Type} (bs : list (option A)) b :
+  first_some (rev (bs ++ [b])) = or_else b (first_some (rev bs)).
+Proof. rewrite rev_app_distr. cbn [rev app]. reflexivity. Qed.
+
+Lemma first_some_In {A : Type} (l : list (option A)) v : first_some l = Some v -> In (Some v) l.
+Proof.
+  induction l as [|x r IH]; cbn [first_some fold_right]; [discriminate|].
+  fold (first_some r). destruct x as [a|]; cbn [or_else].
+  - intros [= ->]. left; reflexivity.
+  - intros H. right. auto.
+Qed.
+
+Lemma mem_str_In x l : mem_str x l = true <-> In x l.
+Proof.
+  induction l as [|y r IH]; cbn [mem_str In]; [split; [discriminate|tauto]|].
+  rewrite orb_true_iff, IH, str_eqb_eq. split; intros [H|H]; auto.
+Qed.
+
+Lemma lookup_some_mem {A : Type} k (m : list (key * A)) v :
+  lookup k m = Some v -> In k (map fst m).
+Proof. intros H. apply lookup_In in H. apply (in_map fst) in H. exact H. Qed.
+
+Lemma lookup_none_not_mem {A : Type} k (m : list (key * A)) :
+  lookup k m = None -> ~ In k (map fst m).
+Proof.
+  induction m as [|[k' v] r IH]; cbn [lookup map fst In]; [tauto|].
+  destruct (str_eqb k k') eqn:E; [discriminate|].
+  intros H [Heq|Hin]; [|exact (IH H Hin)].
+  subst k'. rewrite str_eqb_refl in E. discriminate.
+Qed.
+
+Lemma same_keys_incl a b : same_keys a b = true -> forall x, In x a -> In x b.
+Proof.
+  unfold same_keys. intros H x Hx. apply andb_true_iff in H as [H _].
+  rewrite forallb_forall in H. apply mem_str_In. exact (H x Hx).
+Qed.
+
+Lemma same_keys_refl a : same_keys a a = true.
+Proof.
+  unfold same_keys. assert (H : forallb (fun x => mem_str x a) a = true).
+  { apply forallb_forall. intros x Hx. apply mem_str_In. exact Hx. }
+  rewrite H. reflexivity.
+Qed.
+
+Lemma same_keys_sym a b : same_keys a b = same_keys b a.
+Proof. unfold same_keys. apply andb_comm. Qed.
+
+Lemma all_same_keys_pairwise l :
+  all_same_keys l = true -> forall a b, In a l -> In b l -> same_keys a b = true.
+Proof.
+  induction l as [|x r IH]; cbn [all_same_keys]; intros H a b Ha Hb; [destruct Ha|].
+  apply andb_true_iff in H as [Hx Hr]. rewrite forallb_forall in Hx.
+  destruct Ha as [<-|Ha], Hb as [<-|Hb].
+  - apply same_keys_refl.
+  - exact (Hx _ Hb).
+  - rewrite same_keys_sym. exact (Hx _ Ha).
+  - exact (IH Hr _ _ Ha Hb).
+Qed.
+
+Definition tables_wf (bs : list (option sval)) : Prop :=
+  forall m, In (Some (VTable m)) bs -> nodup_keys m = true.
+
+Definition tables_agree (bs : list (option sval)) : Prop :=
+  forall m1 m2, In (Some (VTable m1)) bs -> In (Some (VTable m2)) bs ->
+                same_keys (map fst m1) (map fst m2) = true.
+
+Definition base_of (v : option sval) : list (key * atom) :=
+  match v with Some (VTable b) => b | _ => [] end.
+
+Lemma lookup_base_of v sk : lookup sk (base_of v) = sub v sk.
+Proof. destruct v as [[a|b]|]; reflexivity. Qed.
+
+Lemma slot_step_table a m sk :
+  nodup_keys m = true ->
+  sub (slot_step a (Some (VTable m))) sk = or_else (lookup sk m) (sub a sk).
+Proof.
+  intros Hnd. cbn [slot_step merge_sval sub].
+  change (match a with Some (VTable b) => b | _ => [] end) with (base_of a).
+  rewrite lookup_fold_upsert by exact Hnd. rewrite lookup_base_of. reflexivity.
+Qed.
+
+(* whole-value precedence holds when all tables given for the key have the same sub-keys *)
+Lemma slot_whole bs :
+  tables_wf bs -> tables_agree bs -> osval_ext (slot bs) (first_some (rev bs)).
+Proof.
+  induction bs as [|b bs IH] using rev_ind; intros Hwf Hag; [exact I|].
+  assert (Hwf' : tables_wf bs) by (intros m Hm; apply Hwf, in_or_app; left; exact Hm).
+  assert (Hag' : tables_agree bs)
+    by (intros m1 m2 H1 H2; apply Hag; apply in_or_app; left; assumption).
+  specialize (IH Hwf' Hag').
+  unfold slot in *. rewrite slot_from_snoc, first_some_rev_snoc.
+  destruct b as [[a|m]|]; cbn [slot_step or_else merge_sval osval_ext sval_ext].
+  - reflexivity.
+  - intros sk.
+    assert (Hnd : nodup_keys m = true) by (apply Hwf, in_or_app; right; left; reflexivity).
+    change (match slot_from None bs with Some (VTable b) => b | _ => [] end)
+      with (base_of (slot_from None bs)).
+    rewrite lookup_fold_upsert by exact Hnd. rewrite lookup_base_of.
+    destruct (lookup sk m) as [x|] eqn:Em; cbn [or_else]; [reflexivity|].
+    destruct (slot_from None bs) as [[a|b0]|] eqn:Es; cbn [sub]; try reflexivity.
+    destruct (first_some (rev bs)) as [[a|m0]|] eqn:Ew; cbn [osval_ext sval_ext] in IH;
+      try contradiction.
+    rewrite IH.
+    destruct (lookup sk m0) as [y|] eqn:E0; [|reflexivity].
+    exfalso. apply first_some_In in Ew. apply in_rev in Ew.
+    assert (Hsame : same_keys (map fst m0) (map fst m) = true).
+    { apply Hag; apply in_or_app; [left; exact Ew|right; left; reflexivity]. }
+    apply lookup_some_mem in E0. apply (same_keys_incl _ _ Hsame) in E0.
+    exact (lookup_none_not_mem _ _ Em E0).
+  - exact IH.
+Qed.
+
+(* leaf-key precedence for a key that is only ever given as a table *)
+Lemma slot_leaf_key bs sk :
+  tables_wf bs -> (forall a, ~ In (Some (VLeaf a)) bs) ->
+  sub (slot bs) sk = first_some (map (fun b => sub b sk) (rev bs)).
+Proof.
+  induction bs as [|b bs IH] using rev_ind; intros Hwf Hnl; [reflexivity|].
+  assert (Hwf' : tables_wf bs) by (intros m Hm; apply Hwf, in_or_app; left; exact Hm).
+  assert (Hnl' : forall a, ~ In (Some (VLeaf a)) bs)
+    by (intros a Ha; apply (Hnl a), in_or_app; left; exact Ha).
+  specialize (IH Hwf' Hnl').
+  unfold slot in *. rewrite slot_from_snoc, rev_app_distr. cbn [rev app map first_some fold_right].
+  fold (first_some (map (fun b0 => sub b0 sk) (rev bs))). rewrite <- IH.
+  destruct b as [[a|m]|].
+  - exfalso. apply (Hnl a), in_or_app. right; left; reflexivity.
+  - rewrite slot_step_table by (apply Hwf, in_or_app; right; left; reflexivity). reflexivity.
+  - reflexivity.
+Qed.
+
+(* a scalar given by the highest-priority file that gives the key wins as a whole *)
+Lemma slot_scalar bs a : first_some (rev bs) = Some (VLeaf a) -> slot bs = Some (VLeaf a).
+Proof.
+  induction bs as [|b bs IH] using rev_ind; [discriminate|].
+  unfold slot in *. rewrite slot_from_snoc, first_some_rev_snoc.
+  destruct b as [[a'|m]|]; cbn [or_else slot_step merge_sval].
+  - intros [= ->]. reflexivity.
+  - discriminate.
+  - exact IH.
+Qed.
+
+Lemma whole_value_bindings builtin repo tools n k :
+  whole_value builtin repo tools n k =
+  first_some (rev (map (binding n k) (layers builtin repo tools))).
+Proof. rewrite <- map_rev, layers_rev. reflexivity. Qed.
+
+Lemma leaf_value_bindings builtin repo tools n k sk :
+  leaf_value builtin repo tools n k sk =
+  first_some (map (fun b => sub b sk) (rev (map (binding n k) (layers builtin repo tools)))).
+Proof.
+  rewrite <- map_rev, layers_rev, map_map. unfold leaf_value. f_equal. apply map_ext.
+  intros f. unfold binding, olookup. destruct (layer_settings n f); reflexivity.
+Qed.
+
+Lemma bindings_tables_wf builtin repo tools n k :
+  wf_file builtin = true -> wf_file repo = true -> forallb wf_file tools = true ->
+  tables_wf (map (binding n k) (layers builtin repo tools)).
+Proof.
+  intros Hb Hr Ht m Hm. apply in_map_iff in Hm as [f [Hf Hin]].
+  exact (wf_binding _ _ _ _ (layers_wf _ _ _ Hb Hr Ht f Hin) Hf).
+Qed.
+
+Lemma bindings_tables_agree builtin repo tools n k :
+  known_f8 builtin repo tools n k = false ->
+  tables_agree (map (binding n k) (layers builtin repo tools)).
+Proof.
+  unfold known_f8. intros Hk. apply negb_false_iff in Hk.
+  assert (Hin : forall m, In (Some (VTable m)) (map (binding n k) (layers builtin repo tools)) ->
+                          In (map fst m) (tables_of builtin repo tools n k)).
+  { intros m Hm. apply in_map_iff in Hm as [f [Hf Hinf]].
+    unfold tables_of. apply in_flat_map. exists f. split.
+    - rewrite <- layers_rev. apply -> in_rev. exact Hinf.
+    - unfold binding, olookup in Hf. rewrite Hf. left; reflexivity. }
+  intros m1 m2 H1 H2. exact (all_same_keys_pairwise _ Hk _ _ (Hin _ H1) (Hin _ H2)).
+Qed.
+
+Theorem whole_value_outside_known builtin repo tools n k :
+  wf_file builtin = true -> wf_file repo = true -> forallb wf_file tools = true ->
+  known_f8 builtin repo tools n k = false ->
+  osval_ext (olookup k (merged_profile builtin repo tools n))
+            (whole_value builtin repo tools n k).
+Proof.
+  intros Hb Hr Ht Hk. rewrite merged_key_slot by assumption. rewrite whole_value_bindings.
+  apply slot_whole.
+  - apply bindings_tables_wf; assumption.
+  - apply bindings_tables_agree; assumption.
+Qed.
+
+Theorem leaf_key_precedence builtin repo tools n k sk :
+  wf_file builtin = true -> wf_file repo = true -> forallb wf_file tools = true ->
+  (forall f a, In f (by_priority repo tools ++ [builtin]) -> binding n k f <> Some (VLeaf a)) ->
+  sub (olookup k (merged_profile builtin repo tools n)) sk =
+  leaf_value builtin repo tools n k sk.
+Proof.
+  intros Hb Hr Ht Hnl. rewrite merged_key_slot by assumption. rewrite leaf_value_bindings.
+  apply slot_leaf_key.
+  - apply bindings_tables_wf; assumption.
+  - intros a Ha. apply in_map_iff in Ha as [f [Hf Hin]].
+    apply (Hnl f a); [|exact Hf]. rewrite <- layers_rev. apply -> in_rev. exact Hin.
+Qed.
+
+Theorem scalar_precedence builtin repo tools n k a :
+  wf_file builtin = true -> wf_file repo = true -> forallb wf_file tools = true ->
+  whole_value builtin repo tools n k = Some (VLeaf a) ->
+  olookup k (merged_profile builtin repo tools n) = Some (VLeaf a).
+Proof.
+  intros Hb Hr Ht Hw. rewrite merged_key_slot by assumption.
+  apply slot_scalar. rewrite <- whole_value_bindings. exact Hw.
+Qed.
